@@ -149,6 +149,7 @@ func checkStep(t *T, cfg stepCfg, in []rec) {
 		}
 	}
 	cells, uncon := int64(0), int64(0)
+	missingCells := int64(0) // asserted cells of positional steppers whose window/source holds an empty value or a record lacking the field
 	for i, r := range in {
 		id, _ := r.get("i")
 		o, okk := byID[id]
@@ -204,17 +205,9 @@ func checkStep(t *T, cfg stepCfg, in []rec) {
 				}
 				continue
 			}
-			// cleanliness of the history
-			cleanPast, cleanAll := true, true // numeric, present
+			// cleanliness of the history, for the cumulative steppers (the positional ones are position-local, see below)
 			noTextPast, noEmptyPast := true, true
 			for j, v := range h.vals {
-				bad := v == absent || !isNum(v)
-				if bad {
-					cleanAll = false
-					if j <= pos {
-						cleanPast = false
-					}
-				}
 				if j <= pos && v != absent && v != "" && !isNum(v) {
 					noTextPast = false
 				}
@@ -317,53 +310,87 @@ func checkStep(t *T, cfg stepCfg, in []rec) {
 					}
 					continue
 				case "delta":
+					// position-local: delta_k is a function of this record's value and of the value k records back in
+					// the group; what the OTHER records of the group hold (empty, text, field lacking) is irrelevant
 					names = []string{f + "_" + s}
-					if cleanPast {
+					if isNum(cur) {
 						if pos < k {
 							exps = []cell{cInt(new(big.Rat))} // documented by the examples: 0 until k records back exist
-						} else {
-							d := new(big.Rat).Sub(ratOf(cur), ratOf(h.vals[pos-k]))
-							if classify(cur) == kInt && classify(h.vals[pos-k]) == kInt {
+						} else if src := h.vals[pos-k]; src != absent && isNum(src) {
+							d := new(big.Rat).Sub(ratOf(cur), ratOf(src))
+							if classify(cur) == kInt && classify(src) == kInt {
 								exps = []cell{cInt(d)}
 							} else {
 								exps = []cell{cTolR(d, math.Max(math.Abs(ratF(ratOf(cur))), 1))}
 							}
 						}
+						// k records back: empty, text or field lacking -> not determined (0? the value itself?)
 					}
 				case "shift", "shift_lag":
+					// usage: "Include value(s) in field(s) from the previous record, if any ... n records back": the
+					// TEXT of the field in the record k back in the group, whatever it is (number, empty, text);
+					// nothing to include (no such record, or that record lacks the field) -> empty
 					names = []string{f + "_" + s}
-					if cleanPast {
-						if pos < k {
-							exps = []cell{cText("")}
-						} else {
-							exps = []cell{cText(h.vals[pos-k])}
-						}
+					if pos < k || h.vals[pos-k] == absent {
+						exps = []cell{cText("")}
+					} else {
+						exps = []cell{cText(h.vals[pos-k])}
+					}
+					if pos >= k && (h.vals[pos-k] == absent || h.vals[pos-k] == "") {
+						missingCells++
 					}
 				case "ratio":
 					names = []string{f + "_" + s}
-					if cleanPast && pos >= k {
-						q := new(big.Rat).Quo(ratOf(cur), ratOf(h.vals[pos-k]))
-						exps = []cell{cTolR(q, 0)}
+					if isNum(cur) && pos >= k {
+						if src := h.vals[pos-k]; src != absent && isNum(src) {
+							q := new(big.Rat).Quo(ratOf(cur), ratOf(src))
+							exps = []cell{cTolR(q, 0)}
+						}
 					}
 				case "shift_lead":
 					names = []string{f + "_" + s}
-					if cleanAll {
-						if pos+k >= len(h.vals) {
-							exps = []cell{cText("")}
-						} else {
-							exps = []cell{cText(h.vals[pos+k])}
+					if pos+k >= len(h.vals) {
+						exps = []cell{cText("")}
+					} else if tgt := h.vals[pos+k]; tgt != absent {
+						exps = []cell{cText(tgt)}
+						if tgt == "" {
+							missingCells++
 						}
 					}
+					// the record k forward lacks the field: empty or no output field, not determined
 				case "slwin":
+					// usage: "Sliding-window averages over m records back and n forward": the window is made of the
+					// group's RECORDS (clipped at both ends of the group); a record whose value is empty, or which lacks
+					// the field, is missing data: it occupies its place in the window and contributes neither to the sum
+					// nor to the divisor (reference-main-null-data.md: an empty cell is the CSV way of lacking the
+					// field, "the sum should simply continue"; property: "left out of that accumulation only").
+					// No contributing value at all -> no average (empty), never a number.
 					names = []string{f + "_" + s, fmt.Sprintf("%s_%d_%d", f, wb, wf)}
-					if cleanAll {
-						var xs []*big.Rat
-						for j := pos - wb; j <= pos+wf; j++ {
-							if j >= 0 && j < len(h.vals) {
-								xs = append(xs, ratOf(h.vals[j]))
-							}
+					var xs []*big.Rat
+					text, missing := false, 0
+					for j := pos - wb; j <= pos+wf; j++ {
+						if j < 0 || j >= len(h.vals) {
+							continue
 						}
-						exps = []cell{cTolR(rmean(xs), numsOf(h.vals).maxAbs)}
+						switch v := h.vals[j]; {
+						case v == absent || v == "":
+							missing++
+						case isNum(v):
+							xs = append(xs, ratOf(v))
+						default:
+							text = true
+						}
+					}
+					if !text {
+						if len(xs) == 0 {
+							exps = []cell{cNonNum()}
+						} else {
+							exps = []cell{cTolR(rmean(xs), numsOf(h.vals).maxAbs)}
+						}
+						if missing > 0 {
+							missingCells++
+							t.w.Count(fmt.Sprintf("slwin_window:%d-of-%d-missing", missing, missing+len(xs)), 1)
+						}
 					}
 				default:
 					t.w.Count("unknown_stepper:"+base, 1)
@@ -395,6 +422,7 @@ func checkStep(t *T, cfg stepCfg, in []rec) {
 	}
 	t.w.Count("cells", cells)
 	t.w.Count("unconstrained", uncon)
+	t.w.Count("step_missing_value_cells", missingCells)
 	if cells > 0 {
 		t.w.Nontrivial(1)
 	}
@@ -413,6 +441,14 @@ func symNames(l []string) []string {
 
 var stepBackward = []string{"counter", "delta", "ewma", "from-first", "ratio", "rprod", "rsum", "shift", "shift_lag", "delta_2", "shift_2", "shift_lag_2", "ratio_2", "shift_lag_3"}
 var stepForward = []string{"shift_lead", "shift_lead_2", "slwin_0_1", "slwin_1_0", "slwin_1_1", "slwin_2_2", "slwin_0_2", "slwin_2_0", "slwin_0_0", "rsum", "shift", "delta", "counter"}
+
+// Missing values inside the window of a positional stepper. A record lacking the field, met by a configuration
+// with a look-forward stepper, is a known finding of the unchanged tree, so the window averages must also be run
+// WITHOUT any look-forward stepper (stepWinBack); look-forward 1 (stepWinFwd1) never loses records; look-forward
+// >= 2 (stepWinFwd2) loses short groups (known finding) and is asserted on the others.
+var stepWinBack = []string{"slwin_0_0", "slwin_1_0", "slwin_2_0", "slwin_3_0", "shift", "shift_lag_2", "shift_lag_3", "delta", "delta_2", "ratio", "ratio_2", "rsum", "counter"}
+var stepWinFwd1 = []string{"slwin_0_1", "slwin_1_1", "slwin_2_1", "slwin_3_1", "shift_lead", "shift", "delta_2"}
+var stepWinFwd2 = []string{"slwin_0_2", "slwin_2_2", "slwin_1_3", "slwin_0_3", "shift_lead_2", "shift_lag_2"}
 
 func stepWorker(w *vf.Worker) {
 	t := newT(w)
@@ -436,10 +472,52 @@ func stepWorker(w *vf.Worker) {
 		w.Count("hit:step:ewma-default-d", 1)
 		checkStep(t, stepCfg{steppers: []string{"ewma", "shift_lead"}, fields: []string{"x"}, alphas: []string{"0.1", "0.9"}, suffixes: []string{"smooth", "rough"}}, in)
 		w.Count("hit:step:-o", 1)
+		checkStep(t, stepCfg{steppers: stepWinBack, fields: []string{"x"}}, in) // window averages without any look-forward stepper
+		w.Count("hit:step:slwin-backward-only", 1)
+	})
+	// missing values (empty / field lacking) at every position of every window: thin value alphabet, longer streams,
+	// so that windows up to 5 records wide occur unclipped and after the first eviction
+	t.family("step/missing-window", 16)
+	miss := []string{"1", "5", "", absent}
+	maxN = 6
+	if !w.Quick() {
+		maxN = 8
+	}
+	forEachSeq(len(miss), 0, maxN, func(seq []int) {
+		if !t.next() {
+			return
+		}
+		in := make([]rec, len(seq))
+		for i, s := range seq {
+			in[i] = mkrec("i", strconv.Itoa(i+1), "x", miss[s])
+		}
+		checkStep(t, stepCfg{steppers: stepWinBack, fields: []string{"x"}}, in)
+		checkStep(t, stepCfg{steppers: stepWinFwd1, fields: []string{"x"}}, in)
+		checkStep(t, stepCfg{steppers: stepWinFwd2, fields: []string{"x"}}, in)
+		w.Count("hit:step:missing-window", 3)
+	})
+	// the same with two interleaved groups: the window of a record is made of the records of ITS group
+	t.family("step/missing-window-grouped", 16)
+	gs := []string{"a", "b"}
+	maxN = 4
+	if !w.Quick() {
+		maxN = 5
+	}
+	forEachSeq(len(gs)*len(miss), 0, maxN, func(seq []int) {
+		if !t.next() {
+			return
+		}
+		in := make([]rec, len(seq))
+		for i, s := range seq {
+			in[i] = mkrec("i", strconv.Itoa(i+1), "g", gs[s/len(miss)], "x", miss[s%len(miss)])
+		}
+		checkStep(t, stepCfg{steppers: []string{"slwin_1_0", "slwin_2_0", "slwin_0_0", "shift", "delta", "rsum", "shift_lag_2"}, fields: []string{"x"}, groupBy: []string{"g"}}, in)
+		checkStep(t, stepCfg{steppers: []string{"slwin_0_1", "slwin_1_1", "slwin_2_1", "shift_lead", "shift"}, fields: []string{"x"}, groupBy: []string{"g"}}, in)
+		w.Count("hit:step:missing-window-grouped", 2)
 	})
 	// two value fields with independent presence
 	t.family("step/two-fields", 16)
-	two := []string{"1", "2.5", absent}
+	two := []string{"1", "2.5", "", absent}
 	maxN = 3
 	if !w.Quick() {
 		maxN = 4
@@ -454,7 +532,8 @@ func stepWorker(w *vf.Worker) {
 		}
 		checkStep(t, stepCfg{steppers: []string{"rsum", "counter", "delta", "shift", "from-first"}, fields: []string{"x", "y"}}, in)
 		checkStep(t, stepCfg{steppers: []string{"shift_lead", "rsum", "slwin_1_1"}, fields: []string{"y", "x"}}, in)
-		w.Count("hit:step:-f x,y", 2)
+		checkStep(t, stepCfg{steppers: []string{"slwin_1_0", "slwin_2_0", "shift", "rsum"}, fields: []string{"y", "x"}}, in)
+		w.Count("hit:step:-f x,y", 3)
 	})
 	w.Sample(map[string]any{"family": "step/main", "example": cmdline(stepCfg{steppers: stepForward, fields: []string{"x"}}.args(), []rec{mkrec("i", "1", "x", "1"), mkrec("i", "2", "x", "2.5")})})
 }
